@@ -356,7 +356,9 @@ def gen_ctx_case(rng, lps=None, nps=None, max_ops=6, max_rows=30, arm_changes=Tr
         ops.append(("pred", [list(rng.choice(stored))]))
     if is_lin and lp[3] and rng.random() < 0.4:
         # scale=True: one feature with a small but non-negligible spread (std between the scaler tolerance and 1e-3)
-        j = rng.randrange(d); base = rng.choice([0.7, 3.0, 0.0, 120.0]); delta = rng.choice([1e-4, 2e-4, 3e-5, 5e-6, 2.5e-4])
+        # (base/delta is kept below 1e5: the variance of such a column is computed with cancellation, and sklearn's and the
+        #  model's roundings then differ by about base/delta ulps - a larger ratio would need a looser comparison)
+        j = rng.randrange(d); base = rng.choice([0.7, 3.0, 0.0, 1.5]); delta = rng.choice([1e-4, 2e-4, 3e-5, 2.5e-4])
         def squeeze(cx):
             return [[(base + v * delta) if k == j else v for k, v in enumerate(row)] for row in cx]
         ops = [((o[0], o[1], o[2], squeeze(o[3])) if o[0] in ("fit", "pfit") else ((o[0], squeeze(o[1])) if o[0] in ("pred", "pexp") else o)) for o in ops]
